@@ -136,6 +136,16 @@ example :
   intro ops
   decide
 
+/-- the iterator's provided methods map to list-level pulls: `nth(1)` is two `next`s, `count` /
+`fold` / `last` end with the iterator's drop -/
+example :
+    ivHist (initInline 4) [.push, .push, .push, .drain 0 3 [.nth 1, .nthBack 0] .count] =
+        some [.push 0, .push 1, .push 2,
+          .drain (.incl 0) (.excl 3) [.front, .front, .back] .drop] := rfl
+example :
+    absIV (runQ [.push, .push, .push, .push, .drain 0 3 [.nth 1] .fold] (initInline 4)).2
+      = ⟨4, [3]⟩ := by decide
+
 /-- the side conditions of the `Vec`-level corollaries are satisfiable -/
 example : SmallHist (initThin 8 true) [.push, .push, .push, .extIter 1 3, .remove 1, .shrinkFit,
     .roundtrip, .splitOff 2] := by decide
